@@ -23,7 +23,7 @@ def profiles(nmax, dmax, nmin=1):
             yield ds
 
 
-def build(macro, depths, flavour=None, handler=None, lets=(), rich=False, readers=(), hpos=None, wrap=False, init_ev=False):
+def build(macro, depths, flavour=None, handler=None, lets=(), rich=False, readers=(), hpos=None, wrap=False, init_ev=False, gated=None):
     """lets: iterable of (branch, is_mut); readers: iterable of (reader_branch, step>=1) where the capture of
     that branch-step snapshots every visible name; rich: every step >= 1 carries a capture, an error-side
     callback and a non-closure operand (C06); wrap: every step >= 1 is opened by a deferred wrapper
@@ -37,6 +37,8 @@ def build(macro, depths, flavour=None, handler=None, lets=(), rich=False, reader
     lets = dict(lets)
     readers = set(readers)
     n = len(depths)
+    if gated:
+        return build_gated(macro, depths, flavour, handler, gated)
 
     def name(b):
         return "n%d" % b
@@ -126,6 +128,77 @@ def build(macro, depths, flavour=None, handler=None, lets=(), rich=False, reader
             body = "ready(%s)" % okv if is_async else okv
         h = (handler, "|%s| { %s %s }" % (args, log, body), hpos)
     return Program(macro, branches, handler=h, flavour=flavour)
+
+
+def gate_id(b, k):
+    return slot(b, k)
+
+
+def gate2_id(b, k):
+    return 32 + slot(b, k)
+
+
+def build_gated(macro, depths, flavour, handler, mode):
+    """async profile programs whose every (branch, step) waits at a harness-controlled gate before its event.
+    mode: 'one' | 'two0' (branch 0 waits at two gates per step) | 'skip0' (branch 0 has no pending point)"""
+    assert macro in dsl.ASYNC
+    is_try = macro in dsl.TRY
+    n = len(depths)
+    branches = []
+    for b, d in enumerate(depths):
+        def fut(k, val):
+            site = "%d.%d.%s" % (b, k, "i" if k == 0 else "f")
+            if mode == "skip0" and b == 0:
+                if is_try:
+                    return "ready({ let x = %s; ev(\"%s\", &x); st_r(%d, %d, x) })" % (val, site, slot(b, k), payload(b, k))
+                return "ready({ let x = %s; ev(\"%s\", &x); st(%d, x) })" % (val, site, slot(b, k))
+            if is_try:
+                return "gated_r(%d, \"%s\", %d, %d, %s)" % (gate_id(b, k), site, slot(b, k), payload(b, k), val)
+            if mode == "two0" and b == 0:
+                return "gated2(%d, %d, \"%s\", %d, %s)" % (gate_id(b, k), gate2_id(b, k), site, slot(b, k), val)
+            return "gated(%d, \"%s\", %d, %s)" % (gate_id(b, k), site, slot(b, k), val)
+
+        items = []
+        for k in range(1, d):
+            if is_try:
+                items.append(Op("=>", [O("|v: i32| %s" % fut(k, "v + 1"))], deferred=True))
+            elif b % 2 == 0:
+                items.append(Op("..", [O("then(|v: i32| %s)" % fut(k, "v + 1"))], deferred=True))
+            else:
+                items.append(Op("|>", [O("|v: i32| %s" % fut(k, "v + 1"))], deferred=True))
+                items.append(Op("^^>", []))
+        # the initial operand is evaluated (logged) when the branch starts, i.e. not before the first poll
+        branches.append(Branch(O("lg(\"%d.0.o\", %s)" % (b, fut(0, "100 * %d + int(%d)" % (b, OFF)))), items))
+    h = None
+    if handler:
+        args = ", ".join("a%d: i32" % i for i in range(n))
+        vec = "vec![%s]" % ", ".join("a%d" % i for i in range(n))
+        log = "ev(\"h.9.h\", &%s);" % vec
+        if handler == "then":
+            body = "async move { gate(62).await; %s %s }" % (log, vec)
+        elif handler == "map":
+            body = "%s %s" % (log, vec)
+        else:
+            body = "async move { gate(62).await; %s Ok::<Vec<i32>, i32>(%s) }" % (log, vec)
+        h = (handler, "|%s| { %s }" % (args, body), None)
+    return Program(macro, branches, handler=h, flavour="Res" if is_try else None)
+
+
+def gates_of(depths, mode, handler=None):
+    """(all gate ids, [(gate, branch, step)])"""
+    gates, gate_of = [], []
+    for b, d in enumerate(depths):
+        if mode == "skip0" and b == 0:
+            continue
+        for k in range(d):
+            gates.append(gate_id(b, k))
+            gate_of.append((gate_id(b, k), b, k))
+            if mode == "two0" and b == 0:
+                gates.append(gate2_id(b, k))
+                gate_of.append((gate2_id(b, k), b, k))
+    if handler in ("then", "and_then"):
+        gates.append(62)
+    return sorted(gates), gate_of
 
 
 HEADER = """use futures::future::ready;
